@@ -220,10 +220,10 @@ func (p *Parser) parseFieldAccess(pos int, left Expression) (Expression, error) 
 			return nil, err
 		}
 		fieldNames = append(fieldNames, arg)
-		if p.tok != nil && p.tok.Tp == RBRACK {
-			break
+		if p.tok != nil && p.tok.Tp != RBRACK {
+			return nil, NewSyntaxError(p.tok.Pos, "Expect `]` but got %s", p.tok.Data)
 		}
-		p.next()
+		break
 	}
 	p.exprLev--
 	err = p.expect(&Token{Tp: RBRACK, Data: "]"})
@@ -416,6 +416,9 @@ func (p *Parser) parseSelect() (*SelectStmt, error) {
 				}
 				fieldName = p.tok.Data
 				p.next()
+				if p.tok != nil && !(p.tok.Tp == SEP && p.tok.Data == ",") && p.tok.Tp != WHERE {
+					return nil, NewSyntaxError(p.tok.Pos, "Expect `,` but got %s", p.tok.Data)
+				}
 			} else if p.tok.Tp == SEP && p.tok.Data == "," {
 				// Correct do nothing
 			} else if p.tok.Tp == WHERE {
